@@ -778,7 +778,7 @@ impl Engine for EngineC {
         out
     }
     fn rule(&self) -> String {
-        "seeded import declarations of 1-3 import sets, each a term over only/except/prefix/rename of depth <= 2 (quick) / <= 3 (thorough), admissible by construction (identifiers from the current name set; simultaneous renamings incl. swaps and chains, never onto a surviving name; no name bound to two values), library delivered natively / as registered text / as a file; each executed on a fresh interpreter under 4 (quick) / 16 (thorough) hash-key seeds. distinct = declaration text x delivery; non-trivial = nesting depth >= 2 or >= 2 import sets".into()
+        "seeded import declarations of 1-3 import sets, each a term over only/except/prefix/rename of depth <= 2 (quick) / <= 3 (thorough), admissible by construction (identifiers from the current name set; simultaneous renamings incl. swaps and chains, never onto a surviving name; no name bound to two values), library delivered natively / as registered text / as a file; optionally a failing declaration first (good set + missing library), a second declaration afterwards, the declaration made by a wrapper library that passes on what it received; libraries with 4 exports, 2 exports of one value whose names are prefixes of each other, 20 exports, and native procedures as exports (identity by the interpreter's own equality); each executed on a fresh interpreter under 4 (quick) / 16 (thorough) hash-key seeds. distinct = declaration text x delivery; non-trivial = nesting depth >= 2 or >= 2 import sets".into()
     }
     fn assumptions(&self) -> Vec<String> {
         vec![
